@@ -13,7 +13,6 @@ EXTENDS SmtSyntaxFns
 
 CONSTANT Seed            \* natural number; varies the sampled points
 
-S(str) == str   \* strings are sequences of codes; helpers below give literals
 SEmpty == <<>>
 Sa == <<97>>
 Sab == <<97, 98>>
